@@ -324,6 +324,15 @@ func (m *DB) Step(op *cs.Op, out *cs.Outcome) string {
 			conds = append(conds, "ErrCollectionExist")
 		}
 		src := coll(op.Q.Coll)
+		if src == nil && op.Q.Coll == op.Coll && len(conds) == 0 && !HasBadLiteral(op.Q.Crit) {
+			// source and target are the same missing collection: either an error (nothing
+			// changes) or an empty new collection is admissible
+			if out.Err == "" {
+				m.Colls[op.Coll] = &Coll{Docs: map[string]cs.Doc{}, Indexes: map[string]bool{}}
+				return ""
+			}
+			return errMatches(out.Err, []string{"any"})
+		}
 		if src == nil {
 			conds = append(conds, "any")
 		}
